@@ -2006,6 +2006,9 @@ func (t *TicketsOrKeys) Decode(d *Decoder) error {
 	// Otherwise, it means Tickets is not nil
 
 	firstByte, err := d.ReadPointerFlag()
+	if err != nil {
+		return err
+	}
 	isTickets := firstByte == 0
 	isKeys := firstByte == 1
 
@@ -2037,7 +2040,7 @@ func (t *TicketsOrKeys) Decode(d *Decoder) error {
 		return nil
 	}
 
-	return nil
+	return fmt.Errorf("invalid TicketsOrKeys discriminator %d", firstByte)
 }
 
 // BandersnatchRingCommitment
